@@ -99,6 +99,11 @@ pub fn decode(bytes: &[u8]) -> Case {
         interior: s.bool(),
         share_outcomes: s.bool(),
         unnamed_fraction: 0,
+        // C16 compares the two readers' solutions with each other and with the library call
+        // bit for bit or within 1e-9, which presupposes that both readers list the outcomes
+        // of a chance node in the same order (label order); repeated labels would order them
+        // by probability instead and change the order of summation
+        free_chance_labels: false,
     };
     let efg = cli::to_efg_text(&tree, &opts, &mut s);
     let json_text = cli::to_json_text(&tree, &mut s);
@@ -126,7 +131,7 @@ pub fn decode(bytes: &[u8]) -> Case {
     let parallel = if s.chance(32) { [0usize, 2, 4][s.below(3)] } else { 1 };
     let sampled_flag = !has_chance(&tree) && s.chance(48);
     let nroutes = 2 + s.below(2);
-    let route_picks = (0..nroutes).map(|_| s.below(12)).collect();
+    let route_picks = (0..nroutes).map(|_| s.below(14)).collect();
     Case {
         built: Built { tree, family: g.family, info },
         json_text,
@@ -275,7 +280,10 @@ pub fn check(bytes: &[u8], _ctx: &Ctx) -> Verdict {
             8 => (false, false, "dat", false, false), // auto detection: unknown extension, then content
             9 => (true, false, "game", false, true),
             10 => (false, false, "json", true, true),
-            _ => (true, false, "efg", true, false),
+            11 => (true, false, "efg", true, false),
+            // an explicit format decides, whatever the extension says
+            12 => (false, false, "efg", true, false),
+            _ => (true, false, "json", true, true),
         };
         let mut a = args.clone();
         if explicit {
@@ -421,7 +429,7 @@ pub fn prop() -> Prop {
         id: "C16",
         check,
         describe,
-        rule: "generated games with dyadic payoffs and probabilities (every derived number exact), each written as JSON and as Gambit (constant c, interior payoffs, shared outcomes) x -d x -t (incl. -t 0 with -r > 0 and vanilla) x -r x -c x -p (mostly 1) x 2-3 routes from 12 combinations of {.json,.efg,.txt,unknown extension} x {file, stdin} x {explicit --input-format, auto} x {stdout, -o}; -m full (and -m sampled on chance-free games, where it is deterministic); oracle: the harness builds the same game through its own IntoGameNode (actions in name order), calls Game::solve(Full, ..) with the parameters the option values denote, applies truncate, and requires the printed strategies to equal that profile within 1e-9 (pruned exactly when an independent evaluation says its regret is lower by more than 1e-9 D; inside that margin the library's own two regrets decide, exact ties included, whenever the printed profile and regret are bit-for-bit the harness's, and either profile is accepted otherwise); one case in six is a decoupled game (a chance move hands the game to one player or the other), where exact ties of the two regrets are common; all routes must print the same strategies. Non-trivial = the five presets give pairwise different library results on this game and budget (a mis-wired option would be visible); distinct by (file, arguments, routes).",
+        rule: "generated games with dyadic payoffs and probabilities (every derived number exact), each written as JSON and as Gambit (constant c, interior payoffs, shared outcomes) x -d x -t (incl. -t 0 with -r > 0 and vanilla) x -r x -c x -p (mostly 1) x 2-3 routes from 14 combinations of {.json,.efg,.txt,unknown extension} x {file, stdin} x {explicit --input-format (also with the other format's extension), auto} x {stdout, -o}; -m full (and -m sampled on chance-free games, where it is deterministic); oracle: the harness builds the same game through its own IntoGameNode (actions in name order), calls Game::solve(Full, ..) with the parameters the option values denote, applies truncate, and requires the printed strategies to equal that profile within 1e-9 (pruned exactly when an independent evaluation says its regret is lower by more than 1e-9 D; inside that margin the library's own two regrets decide, exact ties included, whenever the printed profile and regret are bit-for-bit the harness's, and either profile is accepted otherwise); one case in six is a decoupled game (a chance move hands the game to one player or the other), where exact ties of the two regrets are common; all routes must print the same strategies. Non-trivial = the five presets give pairwise different library results on this game and budget (a mis-wired option would be visible); distinct by (file, arguments, routes).",
         max_len: 1000,
         cases_quick: 40_000,
         cases_thorough: 500_000,
